@@ -67,6 +67,13 @@ class C22(Property):
                             case['upper'] = lo + abs(_val(rng))
                     else:
                         case['upper'] = bound()
+            if arr and kind != 'equals' and rng.random() < 0.35:
+                # array bounds that are infinite (INF_BOUND) in some elements and finite in others
+                case['mixed_inf'] = True
+                for k, sign in (('lower', -1), ('upper', 1)):
+                    if case[k] is not None:
+                        case[k] = [sign * Fraction(10) ** 30 if rng.random() < 0.4 else b
+                                   for b in case[k]]
             for k in ('lower', 'upper', 'equals'):
                 v = case[k]
                 if v is not None:
